@@ -124,6 +124,14 @@ def replay(payload):
             bad = a[0] != "ok" or b[0] != "ok" or rider_corpus.first_diff(a[1], b[1], seed) is not None
             print("replayed corpus: %s" % ("differs" if bad else "same"))
             return bad
+        if prop == "C36" and payload.get("model_compare"):
+            # one corpus case in the plain build: undefined behaviour that the sanitizers do not see (reads that stay inside
+            # the object) shows up as a wrong outcome or a crash
+            cname, cso = rider_corpus.build_cell("plain")
+            st, r = core.run_one_forked(rider_corpus.run_case, cso, cname, payload["case"], timeout=120)
+            want = rider_corpus.model_case(payload["case"])
+            print("replayed corpus case against the model: %s %s (python: %s)" % (st, r, want))
+            return st != "ok" or r != want
         if prop == "C36":
             # one corpus case under the sanitizers, in a sanitized interpreter
             cname, cso = rider_corpus.build_cell("asan", ASAN_CFLAGS)
@@ -134,7 +142,7 @@ def replay(payload):
                        UBSAN_OPTIONS="halt_on_error=1:abort_on_error=1:log_path=%s/ubsan" % logdir,
                        PYTHONPATH=core.VERIF + os.pathsep + os.environ.get("PYTHONPATH", ""))
             code = ("import sys, json; from simkit import build, rider_corpus as rc; m = build.load_ext(%r, %r); fn, args = json.loads(sys.argv[1]); "
-                    "print(getattr(m, fn)(*rc.to_args(fn, args)))" % (cname, cso))
+                    "\ntry: print(getattr(m, fn)(*rc.to_args(fn, args)))\nexcept Exception as e: print('raised', type(e).__name__)" % (cname, cso))
             r = subprocess.run([sys.executable, "-c", code, json.dumps(payload["case"])], env=env, capture_output=True, text=True, cwd=core.VERIF)
             reports = _san_reports(logdir, 0)
             print("replayed corpus case under sanitizers: exit %s %s" % (r.returncode, (reports[0][:300].replace("\n", " ") if reports else r.stdout.strip()[:100])))
